@@ -1,4 +1,5 @@
 import RtcVerif.Model.C13
+import RtcVerif.Model.C13IO
 /-! Line-protocol driver for the C13 models (AliasDict operation machine, simulation vector). -/
 open Lean RtcVerif RtcVerif.Wire RtcVerif.C13
 
@@ -131,6 +132,31 @@ def handle (j : Json) : Option Json := do
       let (s, outs) := run r s0 ops
       pure (Json.mkObj [("outs", Json.arr (outs.map outJ).toArray),
                         ("cur", itemsJ s.cur.items), ("alt", itemsJ s.alt.items)])
+  | "read" =>
+      -- the IO readers: per stage an alias-keyed store built from the file columns, copied into
+      -- the result for every listed variable (`readListed`); then the result read through `keys`
+      let r ← getRel j
+      let stages ← getArr j "stages"
+      let stages ← stages.mapM (fun st => do
+        let cols ← getArr st "cols"
+        let cols ← cols.mapM kvOfJson
+        let vars ← getStrList st "vars"
+        pure (cols, vars))
+      let keys ← getStrList j "keys"
+      let res : Except Err (ADict Val) := stages.foldl (fun acc st =>
+        match acc with
+        | .ok h =>
+          match ADict.update r (ADict.empty true) st.1 with
+          | (store, none) => readListed r store h st.2
+          | (_, some e) => .error e
+        | .error e => .error e) (.ok (ADict.empty true))
+      match res with
+      | .ok h =>
+          pure (Json.mkObj [("outs", Json.arr (keys.map (fun k =>
+            match h.get r k with
+            | .ok v => Json.mkObj [("val", valJ v)]
+            | .error e => errJ e)).toArray)])
+      | .error e => pure (Json.mkObj [("outs", errJ e)])
   | "sim" =>
       let r ← getRel j
       let slots ← getArr j "slots"
